@@ -20,7 +20,12 @@ Inductive ev :=
 | EAdd (p : pod)
 | EUpdate (old new : pod)
 | EDelete (p : pod)
-| ELookup (ip : str) (ans : option (str * list str)).
+| ELookup (ip : str) (ans : option (str * list str))
+(* a lagging consumer of InfoSource: the IP is received by Provider.Run (which resolves the
+   instance at that moment: a Lookup) but its InstanceInfo is read later, possibly after
+   further IPs and deliveries, in an order the implementation chooses *)
+| EPush (ip : str)
+| EDrain (infos : list (str * option (str * list str))).
 
 Definition answer := option (str * list str).
 
@@ -54,7 +59,7 @@ Definition ev_covered (c : k8scase) (e : ev) : bool :=
   match e with
   | EAdd p | EDelete p => pod_covered c p
   | EUpdate o n => pod_covered c o && pod_covered c n
-  | ELookup _ _ => true
+  | ELookup _ _ | EPush _ | EDrain _ => true
   end.
 
 (* multiset equality of tag lists *)
@@ -77,22 +82,47 @@ Definition ans_matches (o : option (str * list str)) (m : option instance) : boo
   | _, _ => false
   end.
 
-Fixpoint replay (cfg : config) (s : state) (evs : list ev) : bool :=
+(* the answers owed to the consumer: (ip, the model's answer when the ip was received) *)
+Fixpoint settle_one (ip : str) (ans : option (str * list str)) (owed : list (str * option instance))
+  : option (list (str * option instance)) :=
+  match owed with
+  | [] => None
+  | (ip', m) :: r =>
+      if str_eqb ip ip' && ans_matches ans m then Some r
+      else match settle_one ip ans r with Some r' => Some ((ip', m) :: r') | None => None end
+  end.
+Fixpoint settle (infos : list (str * option (str * list str))) (owed : list (str * option instance))
+  : option (list (str * option instance)) :=
+  match infos with
+  | [] => Some owed
+  | (ip, ans) :: r => match settle_one ip ans owed with Some owed' => settle r owed' | None => None end
+  end.
+
+(* every InstanceInfo read must carry, for its own ip, the answer of one of the receipts still owed;
+   at the end nothing is owed *)
+Fixpoint replay (cfg : config) (s : state) (owed : list (str * option instance)) (evs : list ev) : bool :=
   match evs with
-  | [] => true
-  | EAdd p :: r => replay cfg (step cfg s (Add p)) r
-  | EUpdate o n :: r => replay cfg (step cfg s (Update o n)) r
-  | EDelete p :: r => replay cfg (step cfg s (Delete p)) r
+  | [] => match owed with [] => true | _ => false end
+  | EAdd p :: r => replay cfg (step cfg s (Add p)) owed r
+  | EUpdate o n :: r => replay cfg (step cfg s (Update o n)) owed r
+  | EDelete p :: r => replay cfg (step cfg s (Delete p)) owed r
   | ELookup ip ans :: r =>
       match candidates (store s) ip, memo s !! ip with
       | (_ :: _ :: _) as cs, (None | Some None) =>
           (* ambiguous index read: any of the candidates *)
           match List.find (fun c => ans_matches ans (Some (derive cfg c))) cs with
-          | Some c => replay cfg (MkSt (store s) (<[ip := Some (derive cfg c)]> (memo s))) r
+          | Some c => replay cfg (MkSt (store s) (<[ip := Some (derive cfg c)]> (memo s))) owed r
           | None => false
           end
-      | _, _ => ans_matches ans (fst (lookup cfg s ip)) && replay cfg (step cfg s (Lookup ip)) r
+      | _, _ => ans_matches ans (fst (lookup cfg s ip)) && replay cfg (step cfg s (Lookup ip)) owed r
       end
+  | EPush ip :: r =>
+      match candidates (store s) ip, memo s !! ip with
+      | _ :: _ :: _, (None | Some None) => true   (* ambiguous and not yet observable: not judged (never generated) *)
+      | _, _ => replay cfg (step cfg s (Lookup ip)) (owed ++ [(ip, fst (lookup cfg s ip))]) r
+      end
+  | EDrain infos :: r =>
+      match settle infos owed with Some owed' => replay cfg s owed' r | None => false end
   end.
 
 (* ---- stream async *)
@@ -160,7 +190,7 @@ Fixpoint aanswers (cfg : config) (s : astate) (evs : list aev) : list (str * opt
   end.
 
 Definition check_case (c : k8scase) : bool :=
-  forallb (ev_covered c) (kc_evs c) && replay (cfg_of c) init (kc_evs c) &&
+  forallb (ev_covered c) (kc_evs c) && replay (cfg_of c) init [] (kc_evs c) &&
   forallb (aev_covered c) (kc_aevs c) && areplay (cfg_of c) ainit (kc_aevs c).
 
 (* for a failing case: whether the tables were complete, and the model's answer to every lookup
@@ -171,7 +201,8 @@ Fixpoint answers (cfg : config) (s : state) (evs : list ev) : list (str * option
   | EAdd p :: r => answers cfg (step cfg s (Add p)) r
   | EUpdate o n :: r => answers cfg (step cfg s (Update o n)) r
   | EDelete p :: r => answers cfg (step cfg s (Delete p)) r
-  | ELookup ip _ :: r => (ip, fst (lookup cfg s ip)) :: answers cfg (step cfg s (Lookup ip)) r
+  | ELookup ip _ :: r | EPush ip :: r => (ip, fst (lookup cfg s ip)) :: answers cfg (step cfg s (Lookup ip)) r
+  | EDrain _ :: r => answers cfg s r
   end.
 
 Definition explain_case (c : k8scase) : bool * list (str * option instance) :=
